@@ -16,7 +16,31 @@ def colJ (col : Column) : Json :=
 def tableJ (t : List (String × Column)) : Json :=
   .arr (t.map fun kc => Json.arr #[.str kc.1, colJ kc.2]).toArray
 
+/-- a run on the one model object: the table or the exception, and in BOTH cases what the caller's model looks
+    like afterwards -/
+def runJ (r : Run (List (String × Column))) : Json :=
+  match r with
+  | (c, .ok tb) => Json.mkObj [("ok", Json.mkObj [("cols", tableJ tb), ("caller", Driver.H_c09.stateJ c)])]
+  | (c, .error e) => Json.mkObj [("err", errJ e), ("caller", Driver.H_c09.stateJ c)]
+
+def exJ (c : Content) (r : Except Err (Content × List (String × Column))) : Json :=
+  match r with
+  | .ok ct => runJ (ct.1, .ok ct.2)
+  | .error e => runJ (c, .error e)
+
+/-- `what = "scaled"`: the closed forms `Props/C18` states for power laws — `scaledCD d n`, the bound factor
+    `prodUp d n`, and the entry `coef` computes from the three flux values of `v = A·xⁿ` -/
+def scaledJ (j : Json) : Except String Json := do
+  let d ← jRat (← field j "d")
+  let n ← jNat (← field j "n")
+  let a ← jRat (fieldD j "A" (.str "1"))
+  let x ← jRat (fieldD j "x" (.str "1"))
+  let e := coef true d x (a * (x * (1 + d)) ^ n) (a * (x * (1 - d)) ^ n) (a * x ^ n)
+  pure (Json.mkObj [("scaled", ratJ (scaledCD d n)), ("prodUp", ratJ (prodUp d n)),
+                    ("coef", match e with | some q => ratJ q | none => .null)])
+
 def handle (j : Json) : Except String Json := do
+  if (← jStr (← field j "what")) == "scaled" then return (← scaledJ j)
   let c ← jContent (← field j "content")
   let toScan ← optJ (jList jStr) (fieldD j "to_scan" .null)
   let vars ← optJ Driver.H_c09.jRow (fieldD j "vars" .null)
@@ -24,24 +48,21 @@ def handle (j : Json) : Except String Json := do
   let d ← jRat (← field j "d")
   let t ← jRat (fieldD j "t" (.str "0"))
   let sample ← optJ Driver.H_c09.jRow (fieldD j "sample" .null)
-  let r : Except Err (Content × List (String × Column)) ←
-    match sample, ← jStr (← field j "what") with
-    | some row, "var" => pure ((mcVarSample c row toScan vars t normalized d).map fun tb => (c, tb))
-    | some row, "par" => pure ((mcParSample c row toScan vars t normalized d).map fun tb => (c, tb))
-    | some row, "resp" => do
-      let w := ssWorker (← Driver.H_c09.jCfg (← field j "cfg"))
-      pure (mcRespSample w c row toScan vars normalized d)
-    | _, what => match what with
-    | "var" => pure ((varElasticities c toScan vars t normalized d).map fun tb => (c, tb))
-    | "par" => pure (parElasticities c toScan vars t normalized d)
-    | "resp" => do
-      let w := ssWorker (← Driver.H_c09.jCfg (← field j "cfg"))
-      match ← jStr (← field j "mode") with
-      | "seq" => pure (responseSeq w vars normalized d c toScan)
-      | _ => pure (responsePar (← jList jNat (fieldD j "assign" (.arr #[]))) (← jNat (fieldD j "n" (.num 1)))
-                    w vars normalized d c toScan)
-    | k => .error s!"bad what {k}"
-  pure (resJ (fun (ct : Content × List (String × Column)) =>
-    Json.mkObj [("cols", tableJ ct.2), ("caller", Driver.H_c09.stateJ ct.1)]) r)
+  match sample, ← jStr (← field j "what") with
+  | some row, "var" => pure (exJ c ((mcVarSample c row toScan vars t normalized d).map fun tb => (c, tb)))
+  | some row, "par" => pure (exJ c ((mcParSample c row toScan vars t normalized d).map fun tb => (c, tb)))
+  | some row, "resp" => do
+    let w := ssWorker (← Driver.H_c09.jCfg (← field j "cfg"))
+    pure (exJ c (mcRespSample w c row toScan vars normalized d))
+  | _, what => match what with
+  | "var" => pure (exJ c ((varElasticities c toScan vars t normalized d).map fun tb => (c, tb)))
+  | "par" => pure (runJ (parElasticitiesT c toScan vars t normalized d))
+  | "resp" => do
+    let w := ssWorker (← Driver.H_c09.jCfg (← field j "cfg"))
+    match ← jStr (← field j "mode") with
+    | "seq" => pure (runJ (responseSeqT w vars normalized d c toScan))
+    | _ => pure (exJ c (responsePar (← jList jNat (fieldD j "assign" (.arr #[]))) (← jNat (fieldD j "n" (.num 1)))
+                  w vars normalized d c toScan))
+  | k => .error s!"bad what {k}"
 
 end Driver.H_c18
